@@ -479,7 +479,7 @@ def run(rep):
         "set operations / setMember are specified on arrays that are sets (strictly key-sorted); on other "
         "arrays only model = implementation is checked",
     ]
-    vlib.prelude(rep)
+    vlib.prelude(rep, extra_modules=['RsjProps.C17Eval'])
     HANGS[0] = 0
     thr = extract_threshold()
     rep.extra["extracted_threshold"] = thr
